@@ -29,14 +29,17 @@ inline void init_keys(bool thorough) {
   add_key("oct16-weak", &weak, nullptr, true);                 // 5
   add_key("ed25519/EdDSA", &p.get("ed25519"), "EdDSA", true);  // 6
   add_key("oct64/HS512", &p.get("oct64"), "HS512", true);      // 7
+  add_key("ec_k256/ES256K", &p.get("ec_k256"), "ES256K", true);  // 8 (GnuTLS cannot use it: a failure cause with its own message)
+  add_key("rsa_2048/PS384", &p.get("rsa_2048"), "PS384", true);  // 9
+  add_key("oct48/HS384", &p.get("oct48"), "HS384", true);        // 10
   if (thorough) {
     add_key("rsa_2048/RS256", &p.get("rsa_2048"), "RS256", true); add_key("rsa_2048", &p.get("rsa_2048"), nullptr, true);
     add_key("ec_p384/ES384", &p.get("ec_p384"), "ES384", true); add_key("ec_p521", &p.get("ec_p521"), nullptr, true); add_key("ed448/EdDSA", &p.get("ed448"), "EdDSA", true);
     add_key("rsa_2048/PS256", &p.get("rsa_2048"), "PS256", true);
   }
 }
-static const jwt_alg_t ALGCH[] = {JWT_ALG_NONE, JWT_ALG_HS256, JWT_ALG_ES256, JWT_ALG_HS512, JWT_ALG_EDDSA, JWT_ALG_RS256, JWT_ALG_ES384, JWT_ALG_ES512, JWT_ALG_PS256, JWT_ALG_HS384};
-static const int NALGCH = 10;
+static const jwt_alg_t ALGCH[] = {JWT_ALG_NONE, JWT_ALG_HS256, JWT_ALG_ES256, JWT_ALG_HS512, JWT_ALG_EDDSA, JWT_ALG_RS256, JWT_ALG_ES384, JWT_ALG_ES512, JWT_ALG_PS256, JWT_ALG_HS384, JWT_ALG_ES256K, JWT_ALG_PS384, JWT_ALG_RS512};
+static const int NALGCH = 13;
 
 // ------------------------------------------------------------------ builder ops
 enum { B_HSET, B_HDEL, B_CSET, B_CDEL, B_IAT, B_OFFSET, B_SETKEY, B_SETCB, B_CLOCK, B_GEN, B_ERRCLR, B_N };
